@@ -9,7 +9,7 @@ From Coquelicot Require Import Coquelicot.
 From PV.Lib Require Import RealAux.
 From PV.Model Require Import HelixSpec.
 From PV.Gen Require Import HelixCode.
-From PV.Props Require Import HelixCommon C12Proofs.
+From PV.Props Require Import HelixCommon HelixLaws C12Proofs C11ErrProofs.
 Local Open Scope R_scope.
 
 Section Statement.
@@ -88,3 +88,17 @@ Print Assumptions C12_identity_jacobian_keeps_error.
 
 Example C12_nonvacuous : atan2_spec atan2_c /\ psd (fun i j => mid i j).
 Proof. split; [exact atan2_c_spec | exact mid_psd]. Qed.
+
+(* true Jacobians compose: the regenerated matrix of the direct move is the product of the matrices of the two partial moves
+   (chain rule; turning angles within half a turn), so error matrices propagated in steps agree with the direct propagation *)
+Theorem C12_jacobian_composes : forall atan2, atan2_spec atan2 -> forall kappa tanl, kappa <> 0 -> forall h p1 p2 E,
+  off_centre kappa h p1 ->
+  - PI < turn atan2 kappa tanl h p1 + turn atan2 kappa tanl (move atan2 kappa tanl h p1) p2 < PI ->
+  forall i j, (i < 5)%nat -> (j < 5)%nat ->
+  mmul (Jmove atan2 kappa tanl (move atan2 kappa tanl h p1) p2) (Jmove atan2 kappa tanl h p1) i j = Jmove atan2 kappa tanl h p2 i j /\
+  JEJt (Jmove atan2 kappa tanl (move atan2 kappa tanl h p1) p2) (JEJt (Jmove atan2 kappa tanl h p1) E) i j = JEJt (Jmove atan2 kappa tanl h p2) E i j.
+Proof.
+  intros atan2 A2 kappa tanl Hk h p1 p2 E Ho Hs i j Hi Hj.
+  split; [apply jacobian_chain_2; assumption | apply error_path_independent_2; assumption].
+Qed.
+Print Assumptions C12_jacobian_composes.
